@@ -83,6 +83,10 @@ func GenNumber(t *rapid.T, vtype string) string {
 }
 
 func GenBytes(t *rapid.T) string {
+	if rapid.IntRange(0, 24).Draw(t, "longvalue") == 0 {
+		// 128 bytes and more: the length prefix of the field takes two bytes in a snapshot
+		return rapid.StringMatching("[a-z]{128,200}").Draw(t, "vlong")
+	}
 	switch rapid.IntRange(0, 5).Draw(t, "vk") {
 	case 0:
 		return ""
